@@ -2,7 +2,9 @@
 
 Proof side: coq/props/C06.v over coq/model/Codec.v (+ the regenerated OpTable).
 Tie: the extracted Codec model vs Pickled.load / StackedPickle.load / pickletools.genops on the
-same streams (per opcode (name, pos, data), dumps(), tell(), bytes still readable, error class).
+same streams (per opcode (name, pos, data), dumps(), tell(), bytes still readable, error class);
+mode "seq" = Pickled.load called again and again on the SAME stream (the model is asked once per
+call, at the offset its previous answer left the caller's stream at).
 Oracle (model-free): the property evaluated on the implementation against the stock tokeniser's
 own delimitation of the first pickle (and the VM's stopping point where the VM accepts).
 
@@ -18,15 +20,22 @@ import signal
 import struct
 import subprocess
 import sys
+import threading
 import time
 from concurrent.futures import ThreadPoolExecutor
 
 from harness import asm
 from harness.common import BUILD, PY, REPO, VERIF, Check, Driver, env_child, report_broken_obligations
 
-MODEL_KIND = {"bytes": "bytes", "bytearray": "bytes", "bytesio": "seek", "file": "seek",
-              "nonseek": "nonseek"}
-STREAM_DELIVERIES = ["bytesio", "file", "nonseek"]
+# non-seekable deliveries: a reader that says seekable() == False; one with read/readline only (no
+# seekable, no tell attribute); one with read only that hands out at most a few bytes per call; the
+# read end of an os.pipe, buffered and raw
+NONSEEK = ["nonseek", "nonseek_noattr", "nonseek_readonly", "pipe", "pipe_raw"]
+SEEKABLE = ["bytesio", "file"]
+MODEL_KIND = {"bytes": "bytes", "bytearray": "bytes", "bytesio": "seek", "file": "seek"}
+MODEL_KIND.update({d: "nonseek" for d in NONSEEK})
+STREAM_DELIVERIES = SEEKABLE + NONSEEK
+MAX_SEQ = 9               # Pickled.load calls on one stream in mode "seq" (concatenations have <= 6 parts)
 BOUNDARY = [0, 1, 255, 256, 65535, 65536]
 KNOWN_SIG = "nonseekable:tail-consumed"
 CASE_TIMEOUT = 4          # seconds per case on the implementation side
@@ -40,8 +49,8 @@ class CaseTimeout(BaseException):
     pass
 
 
-class NonSeekable:
-    """a pipe-like reader over `raw`: read()/readline() only; no seek, no tell"""
+class NoAttr:
+    """read()/readline() only: no seekable, no tell, no seek attribute at all"""
 
     def __init__(self, raw):
         self._raw = raw
@@ -52,11 +61,79 @@ class NonSeekable:
     def readline(self):
         return self._raw.readline()
 
+
+class NonSeekable(NoAttr):
+    """a pipe-like reader over `raw` that says so: seekable() is False; no seek, no tell"""
+
     def readable(self):
         return True
 
     def seekable(self):
         return False
+
+
+class ReadOnlyShort:
+    """read() only (no readline), and a read(n) hands out at most k bytes -- what a raw stream may do"""
+
+    def __init__(self, raw, k):
+        self._raw = raw
+        self._k = k
+
+    def read(self, n=-1):
+        if n is None or n < 0:
+            return self._raw.read()
+        return self._raw.read(min(n, self._k))
+
+
+def _read_exactly(f, n):
+    out = b""
+    while len(out) < n:
+        d = f.read(n - len(out))
+        if not d:
+            break
+        out += d
+    return out
+
+
+def _read_all(f):
+    out = []
+    while True:
+        d = f.read(1 << 16)
+        if not d:
+            return b"".join(out)
+        out.append(d)
+
+
+def deliver_pipe(buf, off, buffering):
+    """the read end of an os.pipe fed with buf by a thread; the caller has already read `off` bytes"""
+    r, w = os.pipe()
+
+    def writer():
+        try:
+            view = memoryview(buf)
+            while len(view):
+                view = view[os.write(w, view[:1 << 16]):]
+        except OSError:
+            pass
+        finally:
+            try:
+                os.close(w)
+            except OSError:
+                pass
+    t = threading.Thread(target=writer, daemon=True)
+    t.start()
+    f = os.fdopen(r, "rb", buffering=buffering)
+    assert not f.seekable()
+    _read_exactly(f, off)
+
+    def probe():
+        rest = _read_all(f)
+        return len(buf) - len(rest), rest, False
+
+    def close():
+        f.close()
+        t.join(2)
+    return f, probe, close
 
 
 STRUCTURAL = ("pickle exhausted before seeing STOP", " unknown", "not enough data in stream",
@@ -110,10 +187,15 @@ def deliver(buf, off, delivery, scratch):
                 altered = g.read() != buf
             return pos, rest, altered
         return f, probe, f.close
-    if delivery == "nonseek":
+    if delivery in ("nonseek", "nonseek_noattr", "nonseek_readonly"):
         raw = io.BytesIO(buf)
         raw.seek(off)            # the caller has already consumed `off` bytes of its pipe
-        return NonSeekable(raw), (lambda: (raw.tell(), raw.read(), raw.getvalue() != buf)), (lambda: None)
+        obj = (NonSeekable(raw) if delivery == "nonseek" else NoAttr(raw) if delivery == "nonseek_noattr"
+               else ReadOnlyShort(raw, 1 + (len(buf) + off) % 5))
+        # raw.tell() = how many bytes the caller's stream has handed out
+        return obj, (lambda: (raw.tell(), raw.read(), raw.getvalue() != buf)), (lambda: None)
+    if delivery in ("pipe", "pipe_raw"):
+        return deliver_pipe(buf, off, -1 if delivery == "pipe" else 0)
     raise ValueError(delivery)
 
 
@@ -143,7 +225,12 @@ def observe(case, scratch):
     loaded = None
     try:
         try:
-            loaded = Pickled.load(obj) if mode == "load" else StackedPickle.load(obj)
+            if mode == "seq":
+                loaded = []
+                for _ in range(MAX_SEQ):
+                    loaded.append(Pickled.load(obj))
+            else:
+                loaded = Pickled.load(obj) if mode == "load" else StackedPickle.load(obj)
         except CaseTimeout:
             raise
         except MemoryError:
@@ -182,6 +269,19 @@ def observe(case, scratch):
         why = oracle_load(buf, off, delivery, loaded, err, caller, rest, altered, res)
         if res.get("stock_raises"):
             why = None
+    elif mode == "seq":
+        segs = []
+        for q in loaded:
+            try:
+                d = "h" + q.dumps().hex()
+            except NotImplementedError:
+                d = "ENCODE-NotImplementedError"
+            segs.append(" ".join(["ok"] + canon_ops(q) + ["d=" + d]))
+        segs.append("err " + err if err is not None else "more")
+        res["line"] = " | ".join(segs)
+        why = oracle_seq(buf, off, delivery, loaded, err, case.get("parts"), rest, altered, res)
+        if res.get("stock_raises"):
+            why = None
     else:
         if err is not None:
             res["line"] = "err " + err
@@ -193,7 +293,7 @@ def observe(case, scratch):
     res["oracle"] = why
     if case.get("vm") and mode == "load":
         res["vm"] = vm_check(buf, off, res.get("ref_end"),
-                             caller if err is None and delivery in ("bytesio", "file") else None)
+                             caller if err is None and delivery in STREAM_DELIVERIES else None)
     return res
 
 
@@ -250,16 +350,65 @@ def oracle_load(buf, off, delivery, p, err, caller, rest, altered, res):
         return {"sig": "no-stop", "why": "the parse does not end in STOP"}
     if altered:
         return {"sig": "input-altered", "why": "the caller's data was altered"}
-    if delivery in ("bytesio", "file"):
+    if delivery in NONSEEK and rest != buf[end:] and buf[end:].endswith(rest):
+        return {"sig": KNOWN_SIG,
+                "why": f"non-seekable stream ({delivery}): {len(buf) - end} bytes follow the first pickle but only "
+                       f"{len(rest)} are still readable from the caller's stream: {len(buf) - end - len(rest)} bytes "
+                       f"beyond the pickle were consumed"}
+    if delivery in STREAM_DELIVERIES:
         if caller != end:
             return {"sig": "position", "why": f"stream left at {caller}, the first pickle ends at {end}"}
         if rest != buf[end:]:
             return {"sig": "tail", "why": f"{len(rest)} bytes readable afterwards, {len(buf) - end} follow the pickle"}
-    if delivery == "nonseek":
-        if rest != buf[end:]:
-            return {"sig": KNOWN_SIG,
-                    "why": f"non-seekable stream: {len(buf) - end} bytes follow the first pickle but "
-                           f"{len(rest)} are still readable (everything was consumed)"}
+    return None
+
+
+def ref_partition(buf, off):
+    """the stock tokeniser applied repeatedly from off: (complete pickles, end of the last one, opcode names
+    seen, opcodes delivered by the failing remainder, was some argument's content rejected)"""
+    ref, p, names, content = [], off, [], False
+    while True:
+        toks, status, _msg = genops_profile(buf, p)
+        names += [t[0] for t in toks]
+        content |= status == "content"
+        if status != "done":
+            return ref, p, names, len(toks), content
+        e = toks[-1][1] + toks[-1][2]
+        ref.append(buf[p:e])
+        p = e
+
+
+def oracle_seq(buf, off, delivery, loads, err, parts, rest, altered, res):
+    """C06 with Pickled.load called repeatedly on the SAME stream: call i returns pickle i (nothing of what
+    follows a pickle was consumed or altered by the calls before), until what is left does not begin with a
+    complete pickle; then the call raises and nothing that was never handed to the parser is missing."""
+    ref, p, names, tail_tokens, content = ref_partition(buf, off)
+    res["ref_status"] = "content" if content else "struct"
+    res["ref_parts"] = len(ref)
+    refusal_ok = _refusal_allowed(names)
+    try:
+        got = [q.dumps() for q in loads]
+    except Exception as e:
+        return {"sig": "dumps-raises", "why": f"re-serialising the untouched parse raised {type(e).__name__}: {e}"}
+    if err == "NotImplementedError" and refusal_ok and got == ref[:len(got)]:
+        return None
+    if got != ref[:len(got)] or len(got) != min(len(ref), MAX_SEQ):
+        k = next((i for i in range(min(len(got), len(ref))) if got[i] != ref[i]), min(len(got), len(ref)))
+        sig = KNOWN_SIG if delivery in NONSEEK and got == ref[:len(got)] and len(got) < len(ref) else "seq-parts"
+        return {"sig": sig,
+                "why": f"{len(ref)} complete pickles on a {delivery} stream, but successive Pickled.load calls "
+                       f"returned {len(got)} (then {err}); first missing/differing element {k}"}
+    if len(ref) < MAX_SEQ:
+        want = "PickleDecodeError" if tail_tokens > 0 else "EmptyPickleError"
+        if err != want:
+            return {"sig": "seq-end", "why": f"after {len(ref)} pickles the remainder delivers {tail_tokens} opcodes "
+                                             f"before failing: expected {want}, got {err}"}
+    if not buf[p:].endswith(rest):
+        return {"sig": "tail", "why": "what is still readable is not a suffix of what followed the last pickle"}
+    if parts is not None and len(parts) < MAX_SEQ and len(got) != len(parts):
+        return {"sig": "seq-parts", "why": f"{len(parts)} pickles were concatenated, {len(got)} loads succeeded"}
+    if altered:
+        return {"sig": "input-altered", "why": "the caller's data was altered"}
     return None
 
 
@@ -267,18 +416,7 @@ def oracle_stacked(buf, off, delivery, sp, err, parts, altered, res):
     """C06, second sentence: the stack has exactly one element per pickle, each re-serialising to its own
     bytes, so that the parts concatenate to the input.  Reference partition = the stock tokeniser
     applied repeatedly."""
-    ref, p, names, status = [], off, [], "done"
-    content = False
-    while True:
-        toks, status, msg = genops_profile(buf, p)
-        names += [t[0] for t in toks]
-        content |= status == "content"
-        if status != "done":
-            break
-        e = toks[-1][1] + toks[-1][2]
-        ref.append(buf[p:e])
-        p = e
-    tail_tokens = len(toks)
+    ref, p, names, tail_tokens, content = ref_partition(buf, off)
     res["ref_status"] = "content" if content else "struct"
     res["ref_parts"] = len(ref)
     refusal_ok = _refusal_allowed(names)
@@ -626,11 +764,13 @@ class CaseList:
 
     def add_deliveries(self, rng, mode, fam, body, vm=False, parts=None, how="some"):
         """deliver `body` as bytes / bytearray / streams at offset 0 and at an offset > 0"""
-        dl = ["bytes", "bytearray", "bytesio", "file", "nonseek"]
+        dl = ["bytes", "bytearray"] + STREAM_DELIVERIES
         if how == "two":
             dl = [rng.choice(["bytes", "bytearray"]), rng.choice(STREAM_DELIVERIES)]
         elif how == "some":
-            dl = ["bytes"] + rng.sample(["bytearray", "bytesio", "file", "nonseek"], 2)
+            dl = ["bytes"] + rng.sample(["bytearray"] + STREAM_DELIVERIES, 3)
+        elif how == "streams":
+            dl = [rng.choice(SEEKABLE)] + rng.sample(NONSEEK, 2)
         for d in dl:
             if d in ("bytes", "bytearray"):
                 self.add(mode, fam, body, d, 0, vm, parts)
@@ -711,24 +851,62 @@ def build_cases(rng, tier):
         parts = [rng.choice(pool_refused if rng.random() < 0.04 else pool) for _ in range(k)]
         body = b"".join(parts)
         cl.add_deliveries(rng, "stacked", f"concat:{k}", body, parts=[len(p) for p in parts], how="some")
+        junk = b""
         if rng.random() < 0.5:
             junk = rng.choice(trails(rng, second)[1:])
             cl.add_deliveries(rng, "stacked", f"concat-junk:{k}", body + junk, how="two")
+        # Pickled.load again and again on the same stream
+        cl.add_deliveries(rng, "seq", f"seq{'-junk' if junk else ''}:{k}", body + junk,
+                          parts=None if junk else [len(p) for p in parts], how="streams")
     cl.add("stacked", "concat:0", b"", "bytes")
     cl.add("stacked", "concat:0", b"\xff", "bytesio")
-    # the witness of the known finding (Codec: C06_refuted_nonseekable_tail)
-    cl.add("load", "witness:nonseekable-tail", b"N.N.", "nonseek", 0)
+    # regression of the repaired finding D12 (Codec: C06_nonseekable_tail_kept), through every kind of
+    # non-seekable stream
+    for d in NONSEEK:
+        cl.add("load", "regression:nonseekable-tail", b"N.N.", d, 0)
+        cl.add("load", "regression:nonseekable-tail", b"N.N.", d, 2)
+        cl.add("seq", "regression:nonseekable-tail", b"N.N.", d, 0, parts=[2, 2])
+        cl.add("stacked", "regression:nonseekable-tail", b"N.N.", d, 0, parts=[2, 2])
+        cl.add("load", "regression:nonseekable-empty", b"", d, 0)
+        cl.add("seq", "regression:nonseekable-truncated", b"N.(lp0\nI1\naI2", d, 0)
     return cl.cases
 
 
 # --------------------------------------------------------------------------------------------
 # model side
 # --------------------------------------------------------------------------------------------
-def model_lines(cases):
-    out = []
-    for c in cases:
-        cmd = "c06_load" if c["mode"] == "load" else "c06_stacked"
-        out.append(f"({cmd} {MODEL_KIND[c['delivery']]} h{c['buf'].hex()} {c['off']})")
+def model_line(c, off=None):
+    cmd = "c06_stacked" if c["mode"] == "stacked" else "c06_load"
+    return f"({cmd} {MODEL_KIND[c['delivery']]} h{c['buf'].hex()} {c['off'] if off is None else off})"
+
+
+def model_answers(cases, n):
+    """one line per case.  Mode "seq": load_model is asked once per Pickled.load call, each time at the offset
+    its previous answer left the CALLER's stream at (l_caller), until it refuses."""
+    out = [None] * len(cases)
+    plain = [i for i, c in enumerate(cases) if c["mode"] != "seq"]
+    for i, a in zip(plain, parallel_query([model_line(cases[i]) for i in plain], n)):
+        out[i] = a
+    active = [i for i, c in enumerate(cases) if c["mode"] == "seq"]
+    offs = {i: cases[i]["off"] for i in active}
+    segs = {i: [] for i in active}
+    for _ in range(MAX_SEQ):
+        if not active:
+            break
+        nxt = []
+        for i, a in zip(active, parallel_query([model_line(cases[i], offs[i]) for i in active], n)):
+            if a.startswith("ok "):
+                f = a.split(" ")
+                segs[i].append(" ".join(["ok"] + f[3:]))
+                offs[i] = int(f[1])
+                nxt.append(i)
+            else:
+                segs[i].append(a)
+        active = nxt
+    for i in active:
+        segs[i].append("more")
+    for i, sg in segs.items():
+        out[i] = " | ".join(sg)
     return out
 
 
@@ -768,16 +946,31 @@ def case_from_record(d):
 # --------------------------------------------------------------------------------------------
 # the check
 # --------------------------------------------------------------------------------------------
+def parser_alive():
+    code = ("import pickle\nfrom fickling.fickle import Pickled\n"
+            "for p in range(6):\n    Pickled.load(pickle.dumps({'a': [1, 'x', (2, None)]}, p) + b'N.').dumps()\n"
+            "Pickled.load(b'cverif_sink\\nrecord\\n(S\"x\"\\ntR.')\n")
+    try:
+        subprocess.run([PY, "-c", code], env=env_child(), cwd=VERIF, timeout=30,
+                       stdout=subprocess.DEVNULL, stderr=subprocess.DEVNULL)
+        return True          # exceptions are the business of the cases below; only a hang matters here
+    except subprocess.TimeoutExpired:
+        return False
+
+
 def main(tier, seed):
     chk = Check("C06", tier, seed)
     chk.rule = ("streams = complete pickle (value generator at protocols 0-5 via C/pure-python/optimize/unframed "
                 "picklers; every opcode of the live pickletools table with its argument at boundary lengths "
                 "0/1/255/256/4300/65535/65536 in two contexts; random opcode soup incl. opcodes without a class; "
                 "malformed counts) + trailing bytes (none, junk, opcode look-alikes, a second pickle), delivered as "
-                "bytes / bytearray / BytesIO / real file / non-seekable reader at offset 0 and > 0; truncations at "
-                "every byte; byte flips; concatenations of 1..6 pickles (+junk) through StackedPickle.load. "
-                "Compared per case: (name,pos,data) of every opcode, dumps(), tell(), bytes still readable, error "
-                "class. A case is non-trivial when fickling accepts it; distinct by (sha1(bytes), delivery, offset, mode)")
+                "bytes / bytearray / BytesIO / real file / five non-seekable streams (reader with seekable()==False; "
+                "reader with read+readline only; reader with read only and short reads; read end of an os.pipe, "
+                "buffered and raw) at offset 0 and > 0; truncations at every byte; byte flips; concatenations of 1..6 "
+                "pickles (+junk) through StackedPickle.load and through repeated Pickled.load calls on the same stream. "
+                "Compared per case: (name,pos,data) of every opcode, dumps(), position of the caller's stream / bytes "
+                "it has handed out, bytes still readable from it, error class. A case is non-trivial when fickling "
+                "accepts it; distinct by (sha1(bytes), delivery, offset, mode)")
     chk.extra["assumptions"] = [
         "model/Codec.reader_kinds: how many bytes each pickletools reader consumes is written by hand from "
         "CPython 3.12 pickletools.py; validated on every run against pickletools.genops itself (all 68 opcodes)",
@@ -785,10 +978,18 @@ def main(tier, seed):
         "only the pinned error mapping is compared (one-sided); counted in content_rejected_by_stock_tokeniser",
         "streams are modelled as random-access byte buffers (BytesIO semantics); a real file whose read(n) raises "
         "OverflowError/MemoryError for a huge count inside the STOCK tokeniser is outside the model (counted)",
+        "a non-seekable stream is modelled as the bytes it will deliver; that pickletools.genops asks it only for the "
+        "bytes of the token it is decoding (read(n)/readline(), no look-ahead) is read off CPython 3.12 pickletools.py "
+        "and observed on every non-seekable case (bytes handed out by the caller's stream == end of the first pickle)",
         "C06_stops_where_vm_stops is differential only (pickle.load / pickle._Unpickler f.tell() on VM-accepted streams)",
         "sys.maxsize = 2^63-1",
     ]
-    built = chk.regen_and_build(["proofs/CodecProofs.vo"])
+    # a parser that loops for ever (dropped seek-back, ...) would also hang the table generators, which
+    # parse sample pickles with it: ask it for a sign of life first, and if there is none go straight to the
+    # implementation side, which reports the hanging input
+    alive = parser_alive()
+    chk.oblige("Pickled.load answers on six small pickles within 30 s (pre-flight, child process)", alive)
+    built = alive and chk.regen_and_build(["proofs/CodecProofs.vo"])
     if built:
         chk.prove()
     scratch = os.path.join(BUILD, "scratch", f"c06-{os.getpid()}")
@@ -803,7 +1004,7 @@ def main(tier, seed):
         t0 = time.time()
         if os.path.exists(os.path.join(BUILD, "driver", "driver")):
             try:
-                model = parallel_query(model_lines(cases), 8 if tier == "quick" else 14)
+                model = model_answers(cases, 8 if tier == "quick" else 14)
                 tok_cases = [c for c in cases if c["mode"] == "load" and c["delivery"] in ("bytes", "bytesio")]
                 tok_model = parallel_query([f"(c06_tok h{c['buf'].hex()} {c['off']})" for c in tok_cases], 8)
             except Exception as e:
@@ -902,11 +1103,12 @@ def main(tier, seed):
             else:
                 failing.append((c, r))
         for c, r, k in known_hits[:1]:
-            chk.known_finding(k, f"[{len(known_hits)} generated non-seekable cases with trailing bytes; e.g. "
+            chk.known_finding(k, f"[{len(known_hits)} generated non-seekable cases followed by further bytes; e.g. "
                                  f"{c['buf'][:16].hex()} as {c['delivery']}@{c['off']}: {r['oracle']['why']}]")
         st["known_finding_cases"] = len(known_hits)
-        chk.oblige(f"property oracle (dumps == first pickle as delimited by the stock tokeniser; tell(); readable "
-                   f"rest; one stack element per pickle) holds on all {len(cases)} cases except the known finding",
+        chk.oblige(f"property oracle (dumps == first pickle as delimited by the stock tokeniser; position of the "
+                   f"caller's stream; readable rest -- seekable and non-seekable alike; one stack element / one "
+                   f"successive load per pickle) holds on all {len(cases)} cases",
                    not failing, json.dumps([case_record(c, {"oracle": r["oracle"]}) for c, r in failing[:2]])[:1800])
         # ---- VM stopping point (differential only) ----
         vm_n, vm_acc, vm_bad = 0, 0, []
